@@ -35,7 +35,7 @@ REACH = [("yamlpath/merger/merger.py", "_merge_dicts,_merge_lists,_merge_simple_
          ("yamlpath/merger/merger.py", "_insert_dict,_insert_list,_insert_set,_insert_scalar,merge_with", "Merger._insert_* / merge_with"),
          ("yamlpath/merger/mergerconfig.py", "hash_merge_mode,array_merge_mode,aoh_merge_mode,set_merge_mode,aoh_merge_key,_prepare_user_rules", "MergerConfig modes")]
 SIZES = {"quick": 200000, "thorough": 4000000}
-REQUIRED_COUNTERS = ["model_decided", "documented_error_cases", "rules_cases", "ini_cases", "twin_rule_cases", "nested_rule_cases", "sequence_cases", "anchored_rule_cases", "merge_key_lhs_cases"]
+REQUIRED_COUNTERS = ["cli_config_cases", "model_decided", "documented_error_cases", "rules_cases", "ini_cases", "twin_rule_cases", "nested_rule_cases", "sequence_cases", "anchored_rule_cases", "merge_key_lhs_cases"]
 HASHES, ARRAYS, AOH, SETS = ["deep", "left", "right"], ["all", "left", "right", "unique"], \
     ["all", "deep", "left", "right", "unique"], ["left", "right", "unique"]
 ALL_COMBOS = list(itertools.product(HASHES, ARRAYS, AOH, SETS))
@@ -155,6 +155,13 @@ def rkind(p):
     return {"s": "scalar"}.get(p[0], p[0])
 
 
+def stable_subset(text):
+    """A subset of the four policy names, chosen by a stable hash of the case (replays choose the same one)."""
+    import hashlib
+    h = hashlib.sha256(text.encode()).digest()[0]
+    return [k for i, k in enumerate(["hashes", "arrays", "aoh", "sets"]) if h >> i & 1]
+
+
 def run_case(ctx, ltext, rtext, combo, delivery, rules=None, keys=None):
     try:
         Ld, Rd = yp.load(ltext), yp.load(rtext)
@@ -181,6 +188,43 @@ def run_case(ctx, ltext, rtext, combo, delivery, rules=None, keys=None):
                 f.write("[defaults]\n" + "".join("%s = %s\n" % kv for kv in cfg.items()))
             mc = MergerConfig(LOG, SimpleNamespace(config=ini))
             ctx.counters["ini_cases"] = ctx.counters.get("ini_cases", 0) + 1
+        elif delivery == "cli":
+            # through the tool's own option handling: a subset of the four policies on the command line, the others in
+            # the [defaults] section of a --config file
+            from vf.mon import cli
+            wd = os.path.join(os.environ.get("VF_WORKDIR", "/dev/shm"), "vf-c05cli-%d" % os.getpid())
+            os.makedirs(wd, exist_ok=True)
+            ini = os.path.join(wd, "m.ini")
+            pick = stable_subset(ltext + rtext + repr(combo))
+            flags = {"hashes": "-H", "arrays": "-A", "aoh": "-O", "sets": "-E"}
+            with open(ini, "w") as f:
+                f.write("[defaults]\n" + "".join("%s = %s\n" % kv for kv in cfg.items() if kv[0] not in pick))
+            for n, t in (("l.yaml", ltext), ("r.yaml", rtext)):
+                with open(os.path.join(wd, n), "w") as f:
+                    f.write(t + "\n")
+            argv = ["-S", "-D", "yaml", "-c", ini]
+            for k in pick:
+                argv += [flags[k], cfg[k]]
+            case["argv"] = list(argv)
+            r = cli.run("yaml_merge", argv + [os.path.join(wd, "l.yaml"), os.path.join(wd, "r.yaml")])
+            ini = None
+            ctx.evaluations += 1
+            ctx.counters["cli_config_cases"] = ctx.counters.get("cli_config_cases", 0) + 1
+            if r["exc"]:
+                ctx.violation("crash/cli", {"case": case, "summary": r["exc"][:200]})
+                return
+            if r["code"] != 0:
+                got = ("ERR", "exit %d: %s" % (r["code"], r["err"][:80]))
+            else:
+                try:
+                    docs = yp.load_all(r["out"])
+                except yp.LoadError:
+                    ctx.violation("cli-output-does-not-load", {"case": case, "summary": r["out"][:200]})
+                    return
+                if len(docs) != 1:
+                    ctx.violation("cli-document-count", {"case": case, "summary": r["out"][:200]})
+                    return
+                got = ("OK", MM.plain(docs[0]))
         else:
             kw = {}
             if rules:
@@ -190,17 +234,18 @@ def run_case(ctx, ltext, rtext, combo, delivery, rules=None, keys=None):
             if kw:
                 ctx.counters["rules_cases"] = ctx.counters.get("rules_cases", 0) + 1
             mc = MergerConfig(LOG, SimpleNamespace(**cfg), **kw)
-        ctx.evaluations += 1
-        m = Merger(LOG, Ld, mc)
-        try:
-            m.merge_with(Rd)
-            got = ("OK", MM.plain(m.data))
-        except (MergeException, YAMLPathException) as e:
-            got = ("ERR", str(e)[:100])
-        except Exception as e:
-            ctx.violation("crash/%s@%s/%s-into-%s" % (type(e).__name__, where(e), rkind(Rp), rkind(Lp)), {
-                "case": case, "summary": "%s: %s" % (type(e).__name__, str(e)[:150])})
-            return
+        if delivery != "cli":
+            ctx.evaluations += 1
+            m = Merger(LOG, Ld, mc)
+            try:
+                m.merge_with(Rd)
+                got = ("OK", MM.plain(m.data))
+            except (MergeException, YAMLPathException) as e:
+                got = ("ERR", str(e)[:100])
+            except Exception as e:
+                ctx.violation("crash/%s@%s/%s-into-%s" % (type(e).__name__, where(e), rkind(Rp), rkind(Lp)), {
+                    "case": case, "summary": "%s: %s" % (type(e).__name__, str(e)[:150])})
+                return
     finally:
         if ini and os.path.exists(ini):
             os.unlink(ini)
@@ -437,6 +482,8 @@ def run_shard(ctx):
             x = rng.random()
             if x < 0.12:
                 run_case(ctx, ltext, rtext, combo, "ini")
+            elif x < 0.15:
+                run_case(ctx, ltext, rtext, combo, "cli")
             elif x < 0.3 and rt[0] == "map" and rt[1]:
                 # per-path override for one node of R reached through mapping keys (any depth)
                 path, val = rng.choice(nested_paths(rt))
